@@ -50,3 +50,9 @@ def fill(check, na):
           "4 (quick) / 5 (thorough) over a 21-symbol alphabet on 2 receivers x 2 payload types x 2 SSRCs are enumerated.",
           "Receivers/senders are opaque stubs; SDES only gets the tombstone clause; truncated REMB FCIs belong to C05.",
           "DESIGN.md 3/C12")
+    check("C15", "wrapper oracles on the real RemoteBitrateEstimator.add (result shape, REMB encodability, SSRC list, cap and over-use bounds from the wrapped measurement/detector) + brute-force shadow of the 1000 ms measurement window; RateCounter against a brute-force model",
+          "Held on the arrival histories generated: every call of add() and every estimate is checked; the measurement returned "
+          "by the real rate counter is recomputed by brute force over the packets of the last 1000 ms. Histories are sampled from "
+          "phase scripts that drive the controller through over-use, decrease, near-max additive increase and throughput collapse.",
+          "Bounds are evaluated once a measurement exists (before that the controller uses its 30 Mbit/s default); > 255 SSRCs is a listed known finding.",
+          "DESIGN.md 3/C15")
